@@ -12,6 +12,7 @@ import os
 
 import numpy as np
 
+from vf import bigcases
 from vf import core
 from vf import callforms
 from vf import errorpaths
@@ -223,3 +224,4 @@ def run(ctx):
     errorpaths.run_threaded(ctx, case_linear, [c for c in configs(ctx.tier) if not c['analytic'] and c['prof'] == 'most_aniso'][:1], threads=(2, 8))
     ctx.run_cases(case_linear, configs(ctx.tier), sub="linearity", chunksize=1)
     ctx.run_cases(case_representation, repr_cases(ctx.tier), sub="argument-representation", chunksize=1)
+    bigcases.run(ctx, "C04")
